@@ -22,7 +22,13 @@ func replayObligation(prog *Prog, fr *FuncResult, o *Obligation, prop, path stri
 	}
 	verdict := "no-failing-input-found"
 	if o.Status == "failed" {
-		v, extra := tryReplay(prog, fr, o, timeoutS)
+		var v string
+		var extra map[string]any
+		if fr.Lemma != nil {
+			v, extra = tryReplayLemma(prog, fr, o, timeoutS)
+		} else {
+			v, extra = tryReplay(prog, fr, o, timeoutS)
+		}
 		if v != "" {
 			verdict = v
 		}
